@@ -1222,6 +1222,67 @@ def compile_findings(ctx, d, libs, known):
         if not known_finding(known, ctx.prop, msg): ctx.oracle_failures.append(rec)
     return n
 
+# "move X to another thread" for the types that own or borrow an arena but are no objects of the calculus (collections over an
+# owned `Bump` / a `&mut Bump`, their by-value iterators, guards): with a base allocator that is not `Send` the move must not
+# compile; with `Global` it must, where the type is `Send` at all (control).  (name, setup lines, expression, Send with Global?)
+THREAD_MOVES = [
+    ("Bump", [], "bump", True),
+    ("&mut Bump", [], "&mut bump", True),
+    ("&Bump", [], "&bump", False),
+    ("BumpScopeGuard", [], "bump.scope_guard()", False),
+    ("BumpScope(by_value)", ["let mut g = bump.scope_guard();", "let mut s = g.scope();"], "s.by_value()", False),
+    ("&mut BumpScope", ["let mut g = bump.scope_guard();", "let mut s = g.scope();"], "&mut s", False),
+    ("BumpClaimGuard", [], "bump.claim()", False),
+    ("BumpPool", ["let mut pool: BumpPool<A> = BumpPool::new();"], "pool", True),
+    ("BumpPoolGuard", ["let mut pool: BumpPool<A> = BumpPool::new();"], "pool.get()", True),
+    ("MutBumpVec<u32, Bump>", [], "{ let mut v = MutBumpVec::<u32, _>::new_in(bump); v.push(1); v }", True),
+    ("MutBumpVec<u32, &mut Bump>", [], "{ let mut v = MutBumpVec::<u32, _>::new_in(&mut bump); v.push(1); v }", True),
+    ("mut_bump_vec::IntoIter<u32, Bump>", [], "{ let mut v = MutBumpVec::<u32, _>::new_in(bump); v.push(1); v.into_iter() }", True),
+    ("mut_bump_vec::IntoIter<u32, &mut Bump>", [], "{ let mut v = MutBumpVec::<u32, _>::new_in(&mut bump); v.push(1); v.into_iter() }", True),
+    ("MutBumpVecRev<u32, &mut Bump>", [], "{ let mut v = MutBumpVecRev::<u32, _>::new_in(&mut bump); v.push(1); v }", False),     # holds a NonNull<T>, no Send impl
+    ("MutBumpString<&mut Bump>", [], "{ let mut v = MutBumpString::new_in(&mut bump); v.push('x'); v }", True),
+    ("MutBumpString<Bump>", [], "{ let mut v = MutBumpString::new_in(bump); v.push('x'); v }", True),
+    ("BumpVec<u32, &Bump>", [], "{ let mut v = BumpVec::<u32, _>::new_in(&bump); v.push(1); v }", False),
+    ("BumpVec<u32, &mut Bump>", [], "{ let mut v = BumpVec::<u32, _>::new_in(&mut bump); v.push(1); v }", True),
+    ("BumpString<&Bump>", [], "{ let mut v = BumpString::new_in(&bump); v.push('x'); v }", False),
+    ("WithoutShrink<&mut Bump>", [], "WithoutShrink(&mut bump)", True),
+]
+
+def thread_move_program(name, setup, expr, alloc):
+    body = "\n".join("    " + l for l in ["type A = %s;" % alloc, "let mut bump: Bump<A> = Bump::new();"] + list(setup) + [
+        f"let x = {expr};", "std::thread::scope(|sc| { sc.spawn(move || { let y = x; touch(&y); drop(y); }); });"])
+    return RUST_HEAD.format(header=f"// thread-move/{name}/{alloc}\n") + "fn main() {\n" + body + "\n}\n"
+
+def compile_thread_moves(ctx, d, libs, known):
+    gen = os.path.join(d, "gen"); outd = os.path.join(d, "target", "cases"); os.makedirs(gen, exist_ok=True); os.makedirs(outd, exist_ok=True)
+    deps = os.path.dirname(libs["bump_scope"])
+    jobs = []
+    for i, (name, setup, expr, sendable) in enumerate(THREAD_MOVES):
+        for alloc in ("NoSend", "Global"):
+            text = thread_move_program(name, setup, expr, alloc)
+            path = os.path.join(gen, f"tm{i:02d}_{alloc}.rs"); open(path, "w").write(text)
+            jobs.append((name, alloc, sendable, text, (path, os.path.join(outd, f"tm{i:02d}_{alloc}.rmeta"), "metadata", libs, deps)))
+    with concurrent.futures.ThreadPoolExecutor(max_workers=min(16, os.cpu_count() or 4)) as ex:
+        results = list(ex.map(lambda j: rustc_one(j[4]), jobs))
+    for (name, alloc, sendable, text, _), (rc, errs) in zip(jobs, results):
+        ctx.evaluations += 1
+        cid = f"thread-move/{name}/{alloc}"
+        codes = [e[0] for e in errs]
+        rec = {"engine": "life", "case": cid, "rustc": "accept" if rc == 0 else "reject", "rustc_codes": codes, "program": text,
+               "first_rustc_error": errs[0][2] if errs else "", "model": "(by construction)", "calculus_program": None}
+        must_reject = alloc == "NoSend" or not sendable
+        if must_reject and rc == 0:
+            msg = (f"ESCAPE-COMPILES {cid}: a program that must not compile is accepted by rustc (route: cross-thread; a value that owns or borrows "
+                   f"an arena over a base allocator that is not Send" + ("" if alloc == "NoSend" else " — or is never thread-safe —") + " is moved to another thread)")
+            rec.update({"expected": "reject", "message": msg, "replay": text})
+            if not known_finding(known, ctx.prop, msg): ctx.oracle_failures.append(rec)
+        elif must_reject and set(codes) != {"E0277"}:
+            rec["what"] = f"generator: the thread move is rejected, but not (only) with E0277: {codes}"; ctx.disagreements.append(rec)
+        elif not must_reject and rc != 0:
+            rec["what"] = "generator: a control program (Send base allocator) does not compile"; ctx.disagreements.append(rec)
+        elif rc != 0: ctx.distinct.add(cid)
+    return len(jobs)
+
 def run_checker(ctx, cases):
     lines = []
     for i, c in enumerate(cases):
@@ -1311,7 +1372,7 @@ def table_from_generated():
 
 def load_table(ctx=None):
     try:
-        sigs, impls, asserts, convs, structs, autos, drops, vconvs = sigs2lean.extract(REPO)
+        sigs, impls, asserts, convs, structs, autos, drops, vconvs, hands = sigs2lean.extract(REPO)
         t = TableDict({(s.owner, s.name): s for s in sigs})
         t.convs = [tuple(r) for r in vconvs]
         return t
@@ -1376,6 +1437,7 @@ def run_life(ctx, budget=None, focus=None, label="life", classic_full=False):
     wall = compile_all(ctx, cases, d, libs)
     known = load_known()
     n_findings = compile_findings(ctx, d, libs, known) if focus is None and not classic_full else 0
+    n_moves = compile_thread_moves(ctx, d, libs, known) if focus is None and not classic_full else 0
     stats = collections.Counter(); by_route = collections.Counter(); by_ctx = collections.Counter(); codes = collections.Counter()
     producers = set()
     for c in cases:
@@ -1423,7 +1485,7 @@ def run_life(ctx, budget=None, focus=None, label="life", classic_full=False):
                 rec["what"] = f"accepted program faults in the calculus' dynamic semantics: {c.model_detail}"
                 ctx.disagreements.append(rec); continue
             stats["accept-and-runs-ok"] += 1
-    ctx.corr[label] = {"programs": len(cases), "regression_programs(findings/)": n_findings, "rustc_wall_s": round(wall, 1), "rustc_invocations": ctx.extra.get("rustc_invocations"), **dict(stats), "contexts": dict(by_ctx), "routes": dict(by_route),
+    ctx.corr[label] = {"programs": len(cases), "regression_programs(findings/)": n_findings, "thread_move_programs": n_moves, "rustc_wall_s": round(wall, 1), "rustc_invocations": ctx.extra.get("rustc_invocations"), **dict(stats), "contexts": dict(by_ctx), "routes": dict(by_route),
                         "rustc_error_codes": dict(codes), "distinct_producers": len(producers)}
     ctx.add_ob(f"correspondence:{label}(calculus checker vs rustc)", "correspondence", not [x for x in ctx.disagreements if x.get("engine") == "life"],
                json.dumps([{k: v for k, v in x.items() if k != "program"} for x in ctx.disagreements[:3]], indent=1)[:3000])
